@@ -29,7 +29,7 @@ struct Expect { jwk_key_type_t kty; int bits; std::string curve; bool has_curve;
 
 static KeySpec CURKEY; static Rend CURR; static std::string CURDOC;
 static std::string rend_json(const Rend &r, const std::string &doc) {
-  return "{\"key\":" + std::to_string(r.key) + ",\"octlen\":" + std::to_string(r.octlen) + ",\"octseed\":" + std::to_string(r.octseed) + ",\"priv\":" + (r.priv ? "1" : "0") + ",\"pad\":" + std::to_string(r.pad) + ",\"strip\":" + (r.strip ? "1" : "0") + ",\"algk\":" + std::to_string(r.algk) + ",\"kidk\":" + std::to_string(r.kidk) + ",\"usek\":" + std::to_string(r.usek) + ",\"opsk\":" + std::to_string(r.opsk) + ",\"okp_x\":" + (r.okp_x ? "1" : "0") + ",\"foreignk\":" + std::to_string(r.foreignk) + ",\"in_set\":" + (r.in_set ? "1" : "0") + ",\"jwk\":" + jstr(doc) + "}";
+  return "{\"key\":" + std::to_string(r.key) + ",\"octlen\":" + std::to_string(r.octlen) + ",\"octseed\":" + std::to_string(r.octseed) + ",\"priv\":" + (r.priv ? "1" : "0") + ",\"pad\":" + std::to_string(r.pad) + ",\"strip\":" + (r.strip ? "1" : "0") + ",\"algk\":" + std::to_string(r.algk) + ",\"kidk\":" + std::to_string(r.kidk) + ",\"usek\":" + std::to_string(r.usek) + ",\"opsk\":" + std::to_string(r.opsk) + ",\"okp_x\":" + (r.okp_x ? "1" : "0") + ",\"foreignk\":" + std::to_string(r.foreignk) + ",\"in_set\":" + (r.in_set ? "1" : "0") + ",\"orig_pem\":" + jstr(CURKEY.pkey ? pkey_to_pem(CURKEY.pkey, true) : std::string()) + ",\"jwk\":" + jstr(doc) + "}";
 }
 
 static std::string raw_okp(EVP_PKEY *k, bool priv) { unsigned char b[64]; size_t l = sizeof b; if (priv ? EVP_PKEY_get_raw_private_key(k, b, &l) : EVP_PKEY_get_raw_public_key(k, b, &l)) return std::string((char *)b, l); return ""; }
@@ -118,7 +118,10 @@ int main(int argc, char **argv) {
     auto gi = [&](const char *k) { return (long long)json_integer_value(json_object_get(j.p, k)); };
     Rend r{(int)gi("key"), (int)gi("octlen"), (uint64_t)gi("octseed"), gi("priv") != 0, (int)gi("pad"), gi("strip") != 0, (int)gi("algk"), (int)gi("kidk"), (int)gi("usek"), (int)gi("opsk"), gi("okp_x") != 0, (int)gi("foreignk"), gi("in_set") != 0};
     // fresh keys cannot be regenerated: fall back to the fixture of the same index modulo, the rendering is what matters
-    KeySpec k; if (r.key < 0) k = oct_key("oct-replay", r.octlen, r.octseed); else k = KEYS[r.key % nfix];
+    KeySpec k; const char *op = json_string_value(json_object_get(j.p, "orig_pem"));
+    if (r.key < 0) k = oct_key("oct-replay", r.octlen, r.octseed);
+    else if (op && *op) { k.name = "replayed"; k.pkey = pem_to_pkey(op, true); if (!k.pkey || !fill_spec_from_pkey(k)) return 2; }   // the very key of the failing run
+    else k = KEYS[r.key % nfix];
     std::string res = run_case(k, r); if (!res.empty()) fprintf(stderr, "replay: %s\n", res.c_str());
     return res.empty() ? 0 : 3;
   }
